@@ -467,6 +467,7 @@ func (vc *VC) execInstr(fr *frame, st *State, ins ssa.Instruction) {
 				extra["$target"] = EV{V: vc.operand(fr, st, fa.X), T: fa.X.Type()}
 			}
 			vc.anchorAsserts(fr, st, lab, extra, x.Pos())
+			vc.markMust(fr, st, lab)
 		}
 		vc.store(fr, st, vc.operand(fr, st, x.Addr), t, vc.operand(fr, st, x.Val), x.Pos())
 	case *ssa.UnOp:
@@ -512,6 +513,7 @@ func (vc *VC) execInstr(fr *frame, st *State, ins ssa.Instruction) {
 		fr.vals[x] = vc.execCall(fr, st, x)
 		if lab, ok := fr.anchors[x]; ok && fr.contract != nil {
 			vc.anchorPost(fr, st, lab)
+			vc.markMust(fr, st, lab)
 		}
 	case *ssa.Defer:
 		st.defers = append(st.defers, deferred{x, fr})
